@@ -54,6 +54,11 @@ class Hooks(W.Hooks):
                     if e.id in pre and e is not r and e.obj is r.obj:
                         return ctx.fail(f"{si.kind}/{si.op}/result-is-an-existing-object",
                                         f"step {step}: the result of {si.op} is the very object held as entry {e.id} (origin {e.origin}); writes through either handle reach both")
+                    if e.id in pre and e is not r and e.typ == "table" and r.typ == "vec" and any(c1 is r.obj for c1 in e.obj.cols()) \
+                            and si.kind == "derive":
+                        return ctx.fail(f"{si.kind}/{si.op}/result-is-a-live-column",
+                                        f"step {step}: the result of {si.op} ({si.info.get('rows')}, {si.info.get('cols')}) is a column object of table entry {e.id}: "
+                                        f"writes through either handle reach both")
                     if e.id in pre and e is not r and e.typ == "table" and r.typ == "table" and \
                             any(c1 is c2 for c1 in e.obj.cols() for c2 in r.obj.cols()):
                         return ctx.fail(f"{si.kind}/{si.op}/result-shares-column-objects",
